@@ -223,6 +223,9 @@ CHECKS = {
 NOT_APPLICABLE = {
     "C07": "SGP4 vs reference theory: numeric agreement of two ~400-operation floating-point programs with libm calls and a Kepler "
            "iteration; no algebraic oracle and far beyond bit-precise FP solving (DESIGN.md section 6). The date hand-over is covered under C04.",
+    "C13": "CCSDS OPM/OEM/OMM/TDM round trip: planned at reduced scope with the opaque-token technique (DESIGN.md section 9) but not built in "
+           "this round; the readers parse dates with strptime and numbers with float() out of regex matches, which needs the token "
+           "machinery for both; rather than checking it another way it is left unclaimed. The writers' date handling is covered under C04.",
     "C15": "value semantics/atomicity live in numpy's C heap (ndarray.base, views, pickle); neither CrossHair nor the symbolic executor "
            "can make that heap symbolic; exploring copy/assign sequences concretely would be a different technique (DESIGN.md section 6).",
     "C18": "truth is a binary JPL kernel and 60-term floating-point series; agreement to 0.02 deg is a numerical fact about data, "
